@@ -204,6 +204,97 @@ def semantic_opb(prog):
     return True, "%d (formula, header, options) instances folded and read back by the OPB grammar" % n_inst
 
 
+def _decode_literal(t, names):
+    t = t.strip()
+    neg = "\\overline{" in t
+    if neg:
+        i = t.index("\\overline{")
+        depth, j = 0, i + len("\\overline")
+        while j < len(t):
+            if t[j] == "{":
+                depth += 1
+            elif t[j] == "}":
+                depth -= 1
+                if depth == 0:
+                    break
+            j += 1
+        t = t[:i] + t[i + len("\\overline{"):j] + t[j + 1:]
+    t = t.strip()
+    if t.startswith("{") and t.endswith("}"):
+        t = t[1:-1]
+    if t not in names:
+        return None
+    return -names[t] if neg else names[t]
+
+
+def semantic_latex(prog):
+    """_print_latex folded over CNF and pseudo-Boolean stand-ins (labels with and without sub / superscripts, an empty clause, an empty
+    formula, page splits, compact or not): every row read back -- literals through the names, \\overline for negation, \\lor / + between
+    them, coefficient shown when above 1, \\geq / = and the degree -- is the constraint of the formula at that position"""
+    fi = prog.func("cnfgen.utils.latexoutput", "_print_latex")
+    G = {"BaseCNF": FakeBaseCNF, "BaseOPB": FakeBaseOPB}
+    labels = ["a", "b_1", "c^2", "d_{1}^{2}"]
+    names = {l: i + 1 for i, l in enumerate(labels)}
+    cnt = 0
+    cases = [("cnf", []), ("cnf", [[1, -2], [], [-3, 4, -1], [2]]), ("cnf", [[-4]]),
+             ("opb", []), ("opb", [[(1, 1), (2, -2), ">=", 1], [(3, 4), "==", 3], [">=", 0], [(1, -3), (1, 1), (5, 2), ">=", 4]])]
+    for kind, cons in cases:
+        for split in (-1, 2):
+            for compact in (True, False):
+                Fm = (FakeBaseOPB if kind == "opb" else FakeBaseCNF)(4, cons, {"description": "d"}, labels)
+                out = Out()
+                f = Folder(env={}, fuel=200000)
+                f.globals = dict(G)
+                what = "_print_latex of the %s %s (split_every=%d, compact=%s)" % ("clauses" if kind == "cnf" else "constraints", cons, split, compact)
+                try:
+                    f.call_function(fi.node, [Fm, out], {"split_every": split, "compact": compact})
+                except Raised as r:
+                    return False, "%s raises %s" % (what, r.cls)
+                except Unknown as e:
+                    return None, "cannot fold _print_latex: %s" % e
+                text = out.text()
+                if not text.startswith("\\begin{align}") or not text.endswith("\n\\end{align}"):
+                    return False, "%s is not an align environment: %r" % (what, text[:60])
+                body = text[len("\\begin{align}"):-len("\n\\end{align}")]
+                body = body.replace("\n\\end{align}\\pagebreak\n\\begin{align}", " \\\\")
+                if not cons:
+                    if body.strip() != "\\top":
+                        return False, "%s shows %r for the empty formula; \\top expected" % (what, body)
+                    cnt += 1
+                    continue
+                rows = [r_.strip() for r_ in body.split("\\\\")]
+                rows = [r_[1:].strip() if r_.startswith("&") else r_ for r_ in rows]
+                if len(rows) != len(cons):
+                    return False, "%s shows %d rows for %d constraints" % (what, len(rows), len(cons))
+                for r_, c in zip(rows, cons):
+                    if kind == "cnf":
+                        t = r_
+                        if t.startswith("\\land"):
+                            t = t[len("\\land"):].strip()
+                        if t.startswith("\\left(") and t.endswith("\\right)"):
+                            t = t[len("\\left("):-len("\\right)")].strip()
+                        got = [] if t == "\\square" else [_decode_literal(x, names) for x in t.split("\\lor")]
+                        if got != list(c):
+                            return False, "%s: the row %r reads as the clause %s; the clause there is %s" % (what, r_, got, c)
+                    else:
+                        parts = r_.rsplit(" ", 2)
+                        if len(parts) != 3 or parts[1] not in ("\\geq", "="):
+                            return False, "%s: the row %r does not end in a relation and a degree" % (what, r_)
+                        terms = []
+                        if parts[0].strip() != "0":
+                            for x in parts[0].split(" + "):
+                                x = x.strip()
+                                k = 0
+                                while k < len(x) and x[k].isdigit():
+                                    k += 1
+                                terms.append((int(x[:k]) if k else 1, _decode_literal(x[k:], names)))
+                        got = terms + [">=" if parts[1] == "\\geq" else "==", int(parts[2]) if parts[2].lstrip("-").isdigit() else parts[2]]
+                        if got != list(c):
+                            return False, "%s: the row %r reads as %s; the constraint there is %s" % (what, r_, got, c)
+                cnt += 1
+    return True, "%d (formula, layout) instances folded and read back" % cnt
+
+
 _V = {}
 
 
@@ -211,7 +302,7 @@ def verdict(prog, which):
     key = (id(prog), which)
     if key not in _V:
         try:
-            _V[key] = {"dimacs": semantic_dimacs, "opb": semantic_opb}[which](prog)
+            _V[key] = {"dimacs": semantic_dimacs, "opb": semantic_opb, "latex": semantic_latex}[which](prog)
         except Unknown as e:
             _V[key] = (None, "cannot fold: %s" % e)
     return _V[key]
